@@ -63,8 +63,8 @@ def Forest.init (E : Env α) (inp : ForestIn α) : Except String (Forest α) := 
     let seed := treeBaseSeed E inp.names [j]
     let rowLimit := noisyRowLimit E inp.ap.salt seed data.size inp.bp.rowFraction
     let root := mkLeaf E ctx [j] [] seed [] [snapped0.getD j default] 0
-    match buildRows E ctx rowLimit root with
-    | some t => pure (pushDown E ctx 4000 t)
+    match (buildRows E ctx rowLimit root).bind (pushDown E ctx 4000) with
+    | some t => pure t
     | none => throw "fuel")
   let snapped := trees1.map (fun t => t.data.snapped.getD 0 default)
   return { ctx, names := inp.names, nullMaps, rootSnapped0 := snapped0, snapped, trees1 }
